@@ -1456,7 +1456,9 @@ func Fanout(w *load.World, c *core.Collector) {
 	if f := findFn(w, "(*cluster.ClusterNode).SearchPoints"); f != nil {
 		var banned []ssax.Edge
 		nSort := 0
-		for _, b := range f.Blocks {
+		// the merge may live in a helper that is handed the concatenated results
+		home, argOf := mergeHome(f)
+		for _, b := range home.Blocks {
 			for _, in := range b.Instrs {
 				call, ok := in.(*ssa.Call)
 				if !ok || len(call.Call.Args) == 0 || !isSearchResultSlice(call.Call.Args[0].Type()) {
@@ -1475,9 +1477,19 @@ func Fanout(w *load.World, c *core.Collector) {
 			if !ok {
 				continue
 			}
-			bo, neg, ok := condBinOp(ifi.Cond, 0)
+			cond, flip := ifi.Cond, false
+			if un, isNot := cond.(*ssa.UnOp); isNot && un.Op == token.NOT {
+				if _, isPar := un.X.(*ssa.Parameter); isPar {
+					cond, flip = un.X, true
+				}
+			}
+			cond = argOf(cond)
+			bo, neg, ok := condBinOp(cond, 0)
 			if !ok {
 				continue
+			}
+			if flip {
+				neg = !neg
 			}
 			isShardCount := func(v ssa.Value) bool {
 				call, ok := v.(*ssa.Call)
@@ -1517,12 +1529,12 @@ func Fanout(w *load.World, c *core.Collector) {
 			banned = append(banned, ssax.Edge{From: b, Succ: single})
 		}
 		bad := ""
-		for _, ex := range successExits(f) {
+		for _, ex := range successExits(home) {
 			r, ok := ex.In.(*ssa.Return)
 			if !ok || len(r.Results) == 0 || ssax.IsNilConst(r.Results[0]) {
 				continue
 			}
-			if reachableWithoutEdges(f, banned, ex.In.Block()) {
+			if reachableWithoutEdges(home, banned, ex.In.Block()) {
 				bad = w.At(ex.In)
 			}
 		}
@@ -1538,10 +1550,11 @@ func Fanout(w *load.World, c *core.Collector) {
 	// SearchPoints truncation bound is the limit the request carried on entry
 	if f := findFn(w, "(*cluster.ClusterNode).SearchPoints"); f != nil {
 		okTrunc := false
-		for _, b := range f.Blocks {
+		home, argOf := mergeHome(f)
+		for _, b := range home.Blocks {
 			for _, in := range b.Instrs {
 				sl, ok := in.(*ssa.Slice)
-				if !ok || sl.High == nil {
+				if !ok || sl.High == nil || !isSearchResultSlice(sl.X.Type()) {
 					continue
 				}
 				hiV := sl.High
@@ -1554,6 +1567,14 @@ func Fanout(w *load.World, c *core.Collector) {
 									hiV = mc.Call.Args[1-i]
 								}
 							}
+						}
+					}
+				}
+				hiV = argOf(hiV)
+				if al, isLd := hiV.(*ssa.UnOp); isLd && al.Op == token.MUL {
+					if cell, isCell := al.X.(*ssa.Alloc); isCell {
+						if sv := ssax.SingleStore(cell); sv != nil {
+							hiV = sv
 						}
 					}
 				}
@@ -5220,4 +5241,60 @@ func shardRegistryRow(w *load.World) (field, lock string) {
 		}
 	}
 	return "", ""
+}
+
+// mergeHome: the function that orders and cuts the merged results of SearchPoints — the method
+// itself, or a helper it hands the concatenated results to. argOf maps a parameter of the helper
+// to the argument at the (single) call site.
+func mergeHome(f *ssa.Function) (*ssa.Function, func(ssa.Value) ssa.Value) {
+	hasSort := func(g *ssa.Function) bool {
+		for _, b := range g.Blocks {
+			for _, in := range b.Instrs {
+				call, ok := in.(*ssa.Call)
+				if !ok || len(call.Call.Args) == 0 || !isSearchResultSlice(call.Call.Args[0].Type()) {
+					continue
+				}
+				if g := call.Call.StaticCallee(); g != nil && strings.Contains(g.Name(), "Sort") {
+					return true
+				}
+			}
+		}
+		return false
+	}
+	ident := func(v ssa.Value) ssa.Value { return v }
+	if hasSort(f) {
+		return f, ident
+	}
+	for _, b := range f.Blocks {
+		for _, in := range b.Instrs {
+			call, ok := in.(*ssa.Call)
+			if !ok {
+				continue
+			}
+			h := ssax.StaticModuleCallee(in)
+			if h == nil || len(h.Blocks) == 0 || !hasSort(h) {
+				continue
+			}
+			takes := false
+			for _, a := range call.Call.Args {
+				if isSearchResultSlice(a.Type()) {
+					takes = true
+				}
+			}
+			if !takes {
+				continue
+			}
+			return h, func(v ssa.Value) ssa.Value {
+				if p, ok := v.(*ssa.Parameter); ok && p.Parent() == h {
+					for i, q := range h.Params {
+						if q == p && i < len(call.Call.Args) {
+							return call.Call.Args[i]
+						}
+					}
+				}
+				return v
+			}
+		}
+	}
+	return f, ident
 }
